@@ -8,7 +8,7 @@ TRUSTED = [
     "harness/translate.py (validators, tables) ; extraction (ExtrOcamlBasic only) + runner/driver.ml + wire format",
     "hash-seed dependence is explored by running the implementation in separate interpreter processes with PYTHONHASHSEED in a "
     "finite set; the theorem covers all iteration orders of the modelled mappings",
-    "treeinfo (INI) output is covered by the C04/C17 checks' model of SortedConfigParser",
+    "treeinfo (INI) output: Base/Ini.print_ini models SortedConfigParser.write (sections and options sorted)",
 ]
 N = {"quick": 60, "thorough": 600}
 K = {"quick": 4, "thorough": 12}
@@ -24,7 +24,7 @@ def run(chk):
     mres = core.run_model(lines)
     mtext = []
     for c, r in zip(cases, mres):
-        if c["kind"] == "composeinfo":
+        if c["kind"] in ("composeinfo", "treeinfo"):
             mtext.append(r[1] if r[0] == "ok" else r)
         else:
             mtext.append(r[1][0] if r[0] == "ok" else r)
@@ -60,7 +60,7 @@ def run(chk):
     chk.add_cases(cases, [True] * len(cases))
     chk.traces += len(cases) * K[chk.tier] * len(SEEDS[chk.tier])
     chk.record_suite("order", {"contents": len(cases), "orders_per_content": K[chk.tier], "hash_seeds": SEEDS[chk.tier],
-                               "kinds": ["rpms", "modules", "extra", "images", "composeinfo"]})
+                               "kinds": ["rpms", "modules", "extra", "images", "composeinfo", "treeinfo"]})
     chk.samples.append({"suite": "order", "case": {k: cases[0][k] for k in cases[0] if k != "orders"}, "bytes": len(mtext[0]) if isinstance(mtext[0], str) else None})
     return chk.finish(
         rule="one content per case (rpms/modules/extra histories, image pools, compose descriptions), constructed in K interleavings "
